@@ -99,19 +99,34 @@ def explore_families(eng, fams, log=print, deadline=None):
 
 # ------------------------------------------------------------------------------------------------ replay binary
 REPLAY_DIR = os.path.join(VERIF, "replay")
+def _replay_dirs():
+    """(crate dir, target dir); for an alternative repository (VERIF_REPO, used for mutant runs in scratch
+    worktrees) a copy of the replay crate with its path dependencies rewritten is kept under .work"""
+    if REPO == "/repo": return REPLAY_DIR, os.path.join(mirdump.WORK, "target-replay")
+    tag = hashlib.sha1(REPO.encode()).hexdigest()[:8]
+    d = os.path.join(mirdump.WORK, "replay-alt-" + tag)
+    os.makedirs(os.path.join(d, "src"), exist_ok=True)
+    for f in ("Cargo.lock", "src/main.rs", "src/corpus.rs"):
+        s = open(os.path.join(REPLAY_DIR, f)).read()
+        if f.endswith("main.rs"): s = s.replace('"/repo/artifacts', '"%s/artifacts' % REPO)
+        if not os.path.exists(os.path.join(d, f)) or open(os.path.join(d, f)).read() != s: open(os.path.join(d, f), "w").write(s)
+    s = open(os.path.join(REPLAY_DIR, "Cargo.toml")).read().replace('path = "/repo/', 'path = "%s/' % REPO)
+    if not os.path.exists(os.path.join(d, "Cargo.toml")) or open(os.path.join(d, "Cargo.toml")).read() != s: open(os.path.join(d, "Cargo.toml"), "w").write(s)
+    return d, os.path.join(mirdump.WORK, "target-replay-alt-" + tag)
 def build_replay(release=False):
-    env = dict(os.environ); env.update(CARGO_TARGET_DIR=os.path.join(mirdump.WORK, "target-replay"), CARGO_NET_OFFLINE="true")
+    crate_dir, target_dir = _replay_dirs()
+    env = dict(os.environ); env.update(CARGO_TARGET_DIR=target_dir, CARGO_NET_OFFLINE="true")
     env.pop("RUSTFLAGS", None)
     # the replay crate depends on /repo's crates by path; keep its lock file in step with /repo's
     lock_src = os.path.join(REPO, "Cargo.lock")
     cmd = ["cargo", "build", "--offline", "--quiet"] + (["--release"] if release else [])
     import fcntl
     os.makedirs(mirdump.WORK, exist_ok=True)
-    with open(os.path.join(mirdump.WORK, "replay.lock"), "w") as lk:
+    with open(target_dir + ".lock", "w") as lk:
         fcntl.flock(lk, fcntl.LOCK_EX)
-        p = subprocess.run(cmd, cwd=REPLAY_DIR, env=env, stdout=subprocess.PIPE, stderr=subprocess.PIPE)
-    if p.returncode != 0: raise mirdump.DumpError("building the replay binary against /repo failed:\n" + p.stderr.decode(errors="replace")[-3000:])
-    return os.path.join(mirdump.WORK, "target-replay", "release" if release else "debug", "replay")
+        p = subprocess.run(cmd, cwd=crate_dir, env=env, stdout=subprocess.PIPE, stderr=subprocess.PIPE)
+    if p.returncode != 0: raise mirdump.DumpError("building the replay binary against %s failed:\n" % REPO + p.stderr.decode(errors="replace")[-3000:])
+    return os.path.join(target_dir, "release" if release else "debug", "replay")
 
 def esc(s): return s.encode("utf-8").hex()
 def unesc(h): return bytes.fromhex(h).decode("utf-8")
@@ -152,10 +167,11 @@ def load_known(pid):
     return [f for f in json.load(open(p)).get("findings", []) if f.get("property") == pid and f.get("status") == "known"]
 
 def write_evidence(pid, tier, seed, coverage, assumptions, wall, violations):
-    os.makedirs(os.path.join(VERIF, "evidence"), exist_ok=True)
+    evdir = os.environ.get("VERIF_EVIDENCE_DIR", os.path.join(VERIF, "evidence"))
+    os.makedirs(evdir, exist_ok=True)
     ev = {"property_id": pid, "tier": tier, "seed": seed, "level": "model_checking", "coverage": coverage,
           "assumptions": assumptions, "wall_s": round(wall, 2), "violations": violations}
-    p = os.path.join(VERIF, "evidence", pid + ".json")
+    p = os.path.join(evdir, pid + ".json")
     json.dump(ev, open(p + ".tmp", "w"), indent=1, default=str); os.replace(p + ".tmp", p)
 
 def main(check):
@@ -284,7 +300,7 @@ def _main(check):
     write_evidence(pid, tier, seed, cov, getattr(check, "ASSUMPTIONS", []), wall, len(new))
     if new:
         os.makedirs(os.path.join(mirdump.WORK, "cex"), exist_ok=True)
-        d = os.path.join(VERIF, "counterexamples"); os.makedirs(d, exist_ok=True)
+        d = os.environ.get("VERIF_CEX_DIR", os.path.join(VERIF, "counterexamples")); os.makedirs(d, exist_ok=True)
         shown = set()
         for v, r in new:
             k = (check.classify(v) if hasattr(check, "classify") else None) or v["what"][:50]
